@@ -21,7 +21,7 @@ theorem run_unused_cp (d : Dir) (k : Nat) (hk : 17 < k) : run d (some k) = run d
     omega
   have h' : ∀ j, hit none j = false := fun j => rfl
   simp only [run, run.afterOpen, h 0 (by omega), h 1 (by omega), h 2 (by omega), h 3 (by omega),
-    h 4 (by omega), h 5 (by omega), h 10 (by omega), h 11 (by omega), h 12 (by omega), h 13 (by omega),
+    h 4 (by omega), h 5 (by omega), h 6 (by omega), h 10 (by omega), h 11 (by omega), h 12 (by omega), h 13 (by omega),
     h 14 (by omega), h 15 (by omega), h 16 (by omega), h 17 (by omega), h']
 
 /-- Case analysis over the thirty directory states. -/
